@@ -202,6 +202,10 @@ func blindScalars(ci *curveInfo, seed int64, thorough bool) []named {
 		{Name: "short, fixed width (leading zero)", B: fixed(short, bl)},
 		{Name: "fill+N", B: new(big.Int).Add(f, N).Bytes()},
 		{Name: "70 x ff (longer than the field)", B: bytes.Repeat([]byte{0xff}, 70)},
+		// D = 0: the blind key bytes are the empty string, the factor hash_to_field(00 || context) is as
+		// well defined as any other
+		{Name: "zero (fixed width)", B: make([]byte, bl)},
+		{Name: "zero (empty encoding)", B: []byte{}},
 	}
 	if thorough {
 		out = append(out,
